@@ -10,6 +10,7 @@ from hypothesis import strategies as st
 
 from .. import cparse, lnstrategies, lntree
 from ..common import Run, ShardResult, canon, run_shards, spec_hash, verif_seed
+from ..common import thorough  # noqa: E402
 from ..hyp import Outcome, drive
 
 PROP = "C16"
@@ -413,7 +414,7 @@ def run(tier: str) -> int:
     run_.extra["depth2_triples_round_tripped"] = triples_ok
     run_.extra["depth2_exhaustive"] = True
     # (2) random trees / statements
-    n_expr, n_stmt = (200, 40) if tier == "quick" else (12000, 1500)
+    n_expr, n_stmt = (200, 40) if tier == "quick" else (thorough(6000), thorough(800))
     for part in run_shards(shard, 16, n_expr=n_expr, n_stmt=n_stmt, seed=verif_seed()):
         run_.merge(part)
     if tier == "thorough":
